@@ -64,6 +64,8 @@ def _alphabet() -> Dict[str, Dict[str, Any]]:
     op("softmax:F_pos", "F.softmax", "F.softmax({h}, -1)", lambda h, m, i: ((h, -1), {}))
     op("softmax:nn", "F.softmax", "self.sm{i}({h})", lambda h, m, i: ((h, -1), {}), ["self.sm{i} = nn.Softmax(dim=-1)"], module=True)
     op("dropout:F_p0", "F.dropout", "F.dropout({h}, p=0.0)", lambda h, m, i: ((h,), {"p": 0.0}))
+    op("dropout:F_eval", "F.dropout", "F.dropout({h}, p=0.3, training=False)", lambda h, m, i: ((h,), {"p": 0.3, "training": False}))
+    op("dropout:F_eval_pos", "F.dropout", "F.dropout({h}, 0.3, False)", lambda h, m, i: ((h, 0.3, False), {}))
     op("layer_norm:F", "F.layer_norm", "F.layer_norm({h}, (D,))", lambda h, m, i: ((h, (D,)), {}))
     op("layer_norm:F_affine", "F.layer_norm", "F.layer_norm({h}, (D,), self.g{i}, self.b{i})",
        lambda h, m, i: ((h, (D,), g(m, "g", i), g(m, "b", i)), {}),
